@@ -183,8 +183,19 @@ def check(ctx):
     import re
     conv_like = [x for x in allr if re.fullmatch(r"self\.\w+\((self\.)?decisions, rewards\)", x) or
                  re.fullmatch(r"self\.lp\._get_binary_rewards\((self\.)?decisions, rewards\)", x)]
+    # the conversion helper may decide by itself whether to convert: it then returns its rewards argument unchanged
+    # on one of its paths
+    passes = False
+    if allr and "rewards" not in allr and len(set(allr)) == 1 and allr[0] in (conv | set(conv_like)):
+        hname = allr[0].split("(")[0].split(".")[-1]
+        h = prog.cls("_Neighbors").resolve(hname)
+        if h is not None and "rewards" in h.params:
+            passes = any(isinstance(r, ast.Return) and isinstance(r.value, ast.Name) and r.value.id == "rewards"
+                         for r in ast.walk(h.node)) and not any(
+                isinstance(a, ast.Assign) and any(isinstance(t, ast.Name) and t.id == "rewards" for t in a.targets)
+                for a in ast.walk(h.node))
     okh = src.get("self.decisions") == "decisions" and src.get("self.contexts") == "contexts" and \
-        bool(allr) and set(allr) <= ({"rewards"} | conv | set(conv_like)) and "rewards" in allr
+        bool(allr) and set(allr) <= ({"rewards"} | conv | set(conv_like)) and ("rewards" in allr or passes)
     ctx.check(okh, "R3.4", "_Neighbors.fit replaces the stored history by its arguments", ff.node, ff,
               "stores %s" % src, construct="def _Neighbors.fit")
     # other writers of the history
